@@ -90,6 +90,12 @@ IMAGE_BY_NAME = {d["spec"]["name"]: d for d in IMAGES}
 def _consistent(b, env, path):
     r = run.run([b.tool("e2fsck"), "-fn", path], env=env, timeout=300)
     keys, det = fsckpair.pycheck(path)
+    if not keys:
+        try:
+            with I.Image(path) as im:
+                keys = M.orphan_file_problems(im)
+        except I.FormatError:
+            pass
     return (r.rc == 0 and not keys), "e2fsck -fn exit %s; pyext4 %s %s" % (r.rc, keys, det[:2])
 
 
@@ -426,6 +432,7 @@ def norm_fsck_line(text):
         s = ln.strip()
         if not s or s.startswith(("e2fsck ", "Pass ")) or re.fullmatch(r"\w+\? (no|yes)", s):
             continue
+        s = re.sub(r"^\S*/e2fsck: ", "e2fsck: ", s)       # program path of com_err messages
         return re.sub(r"\d+", "N", s)[:100]
     return "(no problem line)"
 
@@ -470,6 +477,19 @@ class Seq:
     def v(self, key, what):
         self.viol.append((key, what, len(self.steps) - 1))
 
+    def pyoracle(self):
+        """independent checker + the orphan-file block check it lacks -> (keys, details)"""
+        keys, det = fsckpair.pycheck(self.img)
+        if "ORACLE-CRASH" not in keys and "F4:unparsable-superblock" not in keys:
+            try:
+                with I.Image(self.img) as im:
+                    extra = M.orphan_file_problems(im)
+            except I.FormatError:
+                extra = []
+            keys = sorted(set(keys) | set(extra))
+            det = det + extra
+        return keys, det
+
     def consistency(self, label, B, when):
         """e2fsck -fn == 0 and independent checker silent; records violations.  True if ok"""
         r = self.fsck("-fn")
@@ -478,15 +498,16 @@ class Seq:
             return False
         ok = True
         if r.rc != 0:
-            self.v("C11 %s e2fsck-fn %s [%s]" % (label, norm_fsck_line(r.text), M.feature_class(B)),
+            self.v("C11 %s e2fsck-fn %s [%s]%s" % (label, norm_fsck_line(r.text), M.feature_class(B),
+                                                    " after-requested-e2fsck" if when else ""),
                    "%s: e2fsck -fn exits %s%s: %s" % (label, r.rc, when, r.text[-700:]))
             ok = False
-        keys, det = fsckpair.pycheck(self.img)
+        keys, det = self.pyoracle()
         if "ORACLE-CRASH" in keys:
             self.harness.append("oracle crash after %s: %s" % (label, det))
             return False
         if keys:
-            self.v("C11 %s pyext4 %s" % (label, ",".join(keys)),
+            self.v("C11 %s pyext4 %s%s" % (label, ",".join(keys), " after-requested-e2fsck" if when else ""),
                    "%s: independent checker%s: %s (e2fsck -fn exit %s)" % (label, when, det[:4], r.rc))
             ok = False
         return ok
@@ -497,7 +518,7 @@ class Seq:
         r = self.fsck("-fy")
         if r.rc in (0, 1):
             r2 = self.fsck("-fn")
-            keys, _ = fsckpair.pycheck(self.img)
+            keys, _ = self.pyoracle()
             try:
                 same = not T.diff_digests(self.dig, self.digest())
             except (I.FormatError, struct.error):
@@ -511,7 +532,6 @@ class Seq:
     def invoke(self, atoms, retry_ok=True, is_retry=False, core=False):
         label = M.op_label(atoms)
         argv = M.op_argv(atoms)
-        t_start = time.time()
         B = M.read_sb(self.img)
         sha_b = run.sha256_file(self.img)
         r = run.run([self.b.tool("tune2fs")] + argv + [self.img], env=self.env, timeout=240,
@@ -523,9 +543,9 @@ class Seq:
         st = {"label": label, "argv": argv, "atoms": [M.atom_label(a) for a in atoms], "rc": r.rc,
               "cls": None, "structural": False, "asked": None, "retry": is_retry, "core": core,
               "out": out[-600:]}
-        st["t_tune2fs"] = round(time.time() - t_start, 2)
         self.steps.append(st)
-        self.ops.append({"atoms": atoms})
+        if not is_retry:
+            self.ops.append({"atoms": atoms})
         if r.timed_out:
             st["cls"] = "timeout"
             self.inconclusive.append("tune2fs timeout: " + label)
@@ -577,7 +597,7 @@ class Seq:
         except I.FormatError as e:
             why.append("unreadable: %s" % e)
         r = self.fsck("-fn")
-        keys, det = fsckpair.pycheck(self.img)
+        keys, det = self.pyoracle()
         if r.rc != 0:
             why.append("e2fsck -fn exit %s: %s" % (r.rc, norm_fsck_line(r.text)))
         if keys:
@@ -723,12 +743,8 @@ class Seq:
                     atoms = gen_field(rng, sb)
                 else:
                     atoms = resolve_step(step, rng, sb, d["mmp"])
-                t1 = time.time()
-                n0 = len(self.steps)
                 self.invoke(atoms, core=bool(d.get("script")) and step[0] not in ("random", "random-field"))
-                if len(self.steps) > n0:
-                    self.steps[n0]["t_total"] = round(time.time() - t1, 2)
-        if not self.broken and not self.mutated and not self.viol:
+        if not self.broken and not self.mutated:
             try:
                 td = T.diff_digests(self.dig0, self.digest())
             except I.FormatError as e:
@@ -892,9 +908,6 @@ def main(tier, seed, replay=None, scale=1.0):
                                "sequences_s": round(time.time() - rep.t0 - t_base, 1),
                                "slowest_sequences": sorted(((r.get("wall", 0), r["image"], str(r["forced"]))
                                                             for r in results), reverse=True)[:5]}
-        slow = sorted((r for r in results if r["forced"] != "mmp"), key=lambda r: -r.get("wall", 0))[:2]
-        rep.extra["timing"]["slowest_steps"] = [[(st["label"], st.get("t_tune2fs"), st.get("t_total"))
-                                                 for st in r["steps"]] for r in slow]
         for res in results:
             absorb(rep, res, stats)
         rep.extra["invocations_per_option"] = {k: [v["accepted"], v["refused"]] for k, v in
